@@ -86,7 +86,7 @@ func ReadPacket(r io.Reader) (pkt pkts.Packet, err error) {
 	if err != nil {
 		return nil, err
 	}
-	if err := pkt.Unpack(rawPacket[h.HeaderLength():]); err != nil {
+	if err := pkt.Unpack(rawPacket[pkts.EncodedHeaderLength(rawPacket):]); err != nil {
 		return nil, err
 	}
 
